@@ -180,17 +180,17 @@ var scalarKinds = []scalarKind{
 func judgeEstimate(cs *fw.Case, sigBase string, fam family, theta []float64, d *dataset, pname func(k int) string, wit map[string]any) {
 	for _, t := range theta {
 		if math.IsNaN(t) {
-			cs.Violation(sigBase+"|nan-estimate", fmt.Sprintf("estimate %s contains NaN", fmtTheta(theta)), wit)
+			cs.Violation(sigBase+failKind(sigBase, "|nan-estimate"), fmt.Sprintf("estimate %s contains NaN", fmtTheta(theta)), wit)
 			return
 		}
 	}
 	if !fam.admissible(theta) {
-		cs.Violation(sigBase+"|bound", fmt.Sprintf("estimate %s is outside the configured bounds %v", fmtTheta(theta), wit["config"]), wit)
+		cs.Violation(sigBase+failKind(sigBase, "|bound"), fmt.Sprintf("estimate %s is outside the configured bounds %v", fmtTheta(theta), wit["config"]), wit)
 		return
 	}
 	L0, a0, ok := fam.loglik(theta, d)
 	if !ok {
-		cs.Violation(sigBase+"|bound", fmt.Sprintf("estimate %s is outside the parameter domain", fmtTheta(theta)), wit)
+		cs.Violation(sigBase+failKind(sigBase, "|bound"), fmt.Sprintf("estimate %s is outside the parameter domain", fmtTheta(theta)), wit)
 		return
 	}
 	cs.Cover("judged-estimates")
@@ -266,9 +266,8 @@ func judgeEstimate(cs *fw.Case, sigBase string, fam family, theta []float64, d *
 				allow := K*eps*(a0+sd.a) + D2*rk/math.Abs(sd.delta)
 				if sd.L-L0 > allow || (math.IsInf(L0, -1) && !math.IsInf(sd.L, -1)) {
 					name := pname(k)
-					kindSig := "|not-maximal:" + name
+					kindSig := failKind(sigBase, "|not-maximal:"+name)
 					if strings.Contains(sigBase, "-moments|") {
-						kindSig = "|not-maximal"
 						name = "*"
 					}
 					if !reported[name] {
@@ -366,7 +365,7 @@ func runClosedScalar(cs *fw.Case, r *prng.Rand) {
 		return
 	}
 	if err != nil {
-		cs.Violation(sigBase+"|error", err.Error(), wit)
+		cs.Violation(sigBase+failKind(sigBase, "|error"), err.Error(), wit)
 		return
 	}
 	theta, err := kind.read(pdf, fam)
@@ -379,6 +378,16 @@ func runClosedScalar(cs *fw.Case, r *prng.Rand) {
 	if cs.Violations() == 0 && n >= 2 {
 		cs.Nontrivial(kind.name, variant, cfg, x, gamma)
 	}
+}
+
+// failKind: in the cells of the one-pass moment formulas every way in which
+// the noisy moments surface (not maximal, below the floor, NaN, not positive
+// definite -> error) is one failure kind.
+func failKind(sigBase, kind string) string {
+	if strings.Contains(sigBase, "-moments|") {
+		return "|wrong-estimate"
+	}
+	return kind
 }
 
 func coarseW(w string) string {
